@@ -4,7 +4,7 @@
 from rzilcompiler.Transformer.Effects.Effect import Effect, EffectType
 from rzilcompiler.Transformer.Effects.Sequence import Sequence
 from rzilcompiler.Transformer.Pures.Pure import Pure
-from rzilcompiler.Transformer.Pures.BooleanOp import BooleanOp
+from rzilcompiler.Transformer.Pures.BooleanOp import BooleanOp, is_bool_typed
 from rzilcompiler.Transformer.Pures.CompareOp import CompareOp
 from rzilcompiler.Transformer.Pures.Bool import Bool
 
@@ -29,6 +29,7 @@ class ForLoop(Effect):
             isinstance(self.control, BooleanOp)
             or isinstance(self.control, CompareOp)
             or isinstance(self.control, Bool)
+            or is_bool_typed(self.control)
         ):
             control = self.control.il_read()
         else:
